@@ -236,7 +236,7 @@ def run_strings(ctx):
                 ('w.pos + 1', 'e', lambda r: r['pos'] + 1), ('w.pos - w.k', 'e', lambda r: r['pos'] - r['k']), ('len(w.text) - 1', 'e', lambda r: len(r['text']) - 1),
                 ('len(w.text) - w.k', 'e', lambda r: len(r['text']) - r['k'])], pv
     reqs, meta = [], []
-    for _ in range(ctx.scale(60, 600)):
+    for _ in range(ctx.scale(60, 400)):
         ops, pv = operands()
         shape = rng.choice(['index', 'index', 'slice', 'slice', 'start', 'stop', 'len-slice'])
         a = rng.choice(ops); b = rng.choice(ops)
